@@ -62,7 +62,7 @@ def is_facebook_url(url):
     if isinstance(url, SplitResult):
         return bool(re.search(FACEBOOK_DOMAIN_RE, url.hostname))
 
-    return bool(re.match(FACEBOOK_URL_RE, url))
+    return bool(re.match(FACEBOOK_URL_RE, url.lower()))
 
 
 def is_facebook_post_url(url):
